@@ -41,7 +41,7 @@ func addReinitParticipant(w *World, old int) (int, error) {
 // variants of genuine messages of a signing batch (these parts belong to the
 // C09 and C10 checks: verification must be back on after a reinit).
 func runC20(w *World, tier string, advMode string) (bool, interface{}) {
-	prop := map[string]string{"": "C20", "c09": "C09", "c10": "C10"}[advMode]
+	prop := map[string]string{"": "C20", "c09": "C09", "c10": "C10", "c04": "C04"}[advMode]
 	n, t := pickNT(w, tier)
 	if n > 4 && tier != "thorough" {
 		n = 4
@@ -314,6 +314,15 @@ func runC20(w *World, tier string, advMode string) (bool, interface{}) {
 			}
 		}
 	}
+	if advMode == "c04" {
+		// everything the reinitialised machines produced (incl. the reinit_dkg result) is scanned
+		var airs []*AirNode
+		for _, idx := range newIdx {
+			airs = append(airs, w.Airs[idx])
+		}
+		taintScan(w, airs)
+		w.Stats.Probe("taint-scan-after-reinit")
+	}
 	w.Abstract[fmt.Sprintf("log014=%v/junk=%v/signedBefore=%v", variant014, junk, signedBefore)] = true
 	return judged > 0, map[string]interface{}{"n": n, "t": t, "log_0_1_4": variant014, "junk_in_log": junk, "signed_before_dump": signedBefore, "adv": advMode, "injected": kinds, "old_log_len": len(oldMsgs)}
 }
@@ -389,6 +398,7 @@ func init() {
 	Register(&Scenario{Prop: "C20", Name: "C20", Run: func(w *World, tier string) (bool, interface{}) { return runC20(w, tier, "") }})
 	Register(&Scenario{Prop: "C09", Name: "C09-reinit", Run: func(w *World, tier string) (bool, interface{}) { return runC20(w, tier, "c09") }})
 	Register(&Scenario{Prop: "C10", Name: "C10-reinit", Run: func(w *World, tier string) (bool, interface{}) { return runC20(w, tier, "c10") }})
+	Register(&Scenario{Prop: "C04", Name: "C04-reinit", Run: func(w *World, tier string) (bool, interface{}) { return runC20(w, tier, "c04") }})
 }
 
 var _ = strings.Contains
